@@ -1,8 +1,139 @@
-import Nv.Model.C03
-/-! C03 — property theorems (under construction). -/
+import Nv.Proofs.C03ScanTop
+/-!
+C03 — property theorems for the B-tree (`ds/tree/btree`) and its locked wrapper (`ds/tree`).
+Model: `Nv.Model.C03`; specification: `Nv.Spec.C03` (a strictly sorted item list).
+Every statement quantifies over all trees satisfying the structural invariant `Tree.ok` (every
+degree ≥ 2, every shape, every item list), all pivots, all callbacks/filters, all limits.
+-/
 namespace Nv.C03
 
-example : Proved ⟨⟨.asc, .pivot, .nil, true, false⟩, ⟨.asc, .pivot, .nil, false, false⟩,
-    ⟨.desc, .pivot, .nil, true, false⟩, ⟨.desc, .pivot, .nil, false, false⟩, .ge, 2⟩ := by decide
+/-! ### the invariant gives a sorted set -/
+
+theorem bt_inv_sorted (t : Tree) (h : t.ok = true) : Sorted t.inorder := by
+  unfold Tree.ok at h
+  unfold Tree.inorder
+  cases hr : t.root with
+  | none => exact List.Pairwise.nil
+  | some r =>
+    simp only [hr, Bool.and_eq_true] at h
+    exact sorted_of_sortedKeys _ h.2.1.2
+
+theorem bt_inv_length (t : Tree) (h : t.ok = true) : t.length = t.inorder.length := by
+  unfold Tree.ok at h
+  unfold Tree.inorder
+  cases hr : t.root with
+  | none => simp only [hr, Bool.and_eq_true] at h; simpa using h.2
+  | some r => simp only [hr, Bool.and_eq_true] at h; simpa using h.2.2
+
+theorem root_shape (t : Tree) (h : t.ok = true) (r : Node) (hr : t.root = some r) : Shape (height r) r := by
+  unfold Tree.ok at h
+  simp only [hr, Bool.and_eq_true] at h
+  exact shape_of_rootOk _ _ r h.2.1.1
+
+/-! ### scans -/
+
+/-- `iterate` (the state machine shared by all scans), for every tree satisfying the invariant, every
+    direction, start pivot (present, absent, below the minimum, above the maximum, or none), stop bound,
+    inclusive/exclusive, initial `hit`, and every stateful callback: the callback is run over exactly the
+    specified items, in scan order, until it answers `false` or `stop` is reached. -/
+theorem bt_scan_spec {σ : Type} (t : Tree) (h : t.ok = true) (d : Dir) (q : Q σ) (hit : Bool) (st : σ) :
+    t.iterate d q hit st =
+      runCb q.cb ((specScan t.inorder d q.start (effIncl d q.incl hit)).takeWhile (beforeStop d q.stop)) st := by
+  unfold Tree.iterate Tree.inorder
+  cases hr : t.root with
+  | none => cases d <;> cases q.start <;> simp [specScan, runCb]
+  | some r =>
+    have hso : Sorted r.inorder := by have := bt_inv_sorted t h; simpa [Tree.inorder, hr] using this
+    cases d with
+    | asc => exact node_iterate_asc q r hit st (root_shape t h r hr) hso
+    | desc => exact node_iterate_desc q r hit st (root_shape t h r hr) hso
+
+/-- the four pivot scans, with the argument tuples found in the source: the callback is handed exactly the
+    items of the sorted set beyond the pivot, in scan order, up to and including the first it rejects -/
+theorem bt_scan_named (c : Cfg) (hc : Proved c) (t : Tree) (h : t.ok = true) (p : Int) (cont : Item → Bool) :
+    t.scan c.ascGe (some p) none cont = visited cont (specScan t.inorder .asc (some p) true) ∧
+    t.scan c.ascGt (some p) none cont = visited cont (specScan t.inorder .asc (some p) false) ∧
+    t.scan c.descLe (some p) none cont = visited cont (specScan t.inorder .desc (some p) true) ∧
+    t.scan c.descLt (some p) none cont = visited cont (specScan t.inorder .desc (some p) false) := by
+  obtain ⟨h1, h2, h3, h4, _, _⟩ := hc
+  simp [Tree.scan, Tree.scanWith, h1, h2, h3, h4, Arg.eval, bt_scan_spec t h, effIncl, runCb_collect]
+
+/-- the vendored scans without a start pivot / with a stop bound -/
+theorem bt_scan_vendored (t : Tree) (h : t.ok = true) (p p2 : Int) (cont : Item → Bool) :
+    t.scan argsAscend none none cont = visited cont t.inorder ∧
+    t.scan argsDescend none none cont = visited cont t.inorder.reverse ∧
+    t.scan argsAscendLessThan (some p) none cont = visited cont (t.inorder.takeWhile (fun x => decide (x.key < p))) ∧
+    t.scan argsDescendGreaterThan (some p) none cont =
+      visited cont (t.inorder.reverse.takeWhile (fun x => decide (p < x.key))) ∧
+    t.scan argsAscendRange (some p) (some p2) cont =
+      visited cont ((specScan t.inorder .asc (some p) true).takeWhile (fun x => decide (x.key < p2))) ∧
+    t.scan argsDescendRange (some p) (some p2) cont =
+      visited cont ((specScan t.inorder .desc (some p) true).takeWhile (fun x => decide (p2 < x.key))) := by
+  simp [Tree.scan, Tree.scanWith, argsAscend, argsDescend, argsAscendLessThan, argsDescendGreaterThan,
+    argsAscendRange, argsDescendRange, Arg.eval, bt_scan_spec t h, effIncl, runCb_collect, specScan]
+
+/-- `iterWalk` (all four wrapper scans): the result is the first `n` items of the specified scan that pass
+    the filter; `n = 0` gives the empty result, an empty tree gives the empty result -/
+theorem bt_iterwalk_spec (c : Cfg) (hc : Proved c) (t : Tree) (h : t.ok = true) (k : Int) (f : Item → Bool) (n : Nat) :
+    wAscendGte c t k f n = .items (((specScan t.inorder .asc (some k) true).filter f).take n) ∧
+    wAscendGt c t k f n = .items (((specScan t.inorder .asc (some k) false).filter f).take n) ∧
+    wDescendLte c t k f n = .items (((specScan t.inorder .desc (some k) true).filter f).take n) ∧
+    wDescendLt c t k f n = .items (((specScan t.inorder .desc (some k) false).filter f).take n) := by
+  obtain ⟨h1, h2, h3, h4, h5, _⟩ := hc
+  cases n with
+  | zero => simp [wAscendGte, wAscendGt, wDescendLte, wDescendLt, iterWalk]
+  | succ m =>
+    have hn0 : ¬ ((m + 1 : Nat) : Int) = 0 := by omega
+    have hn1 : ¬ ((m + 1 : Nat) : Int) < 0 := by omega
+    simp only [wAscendGte, wAscendGt, wDescendLte, wDescendLt, iterWalk, hn0, hn1, if_false, Tree.scanWith,
+      h1, h2, h3, h4, Arg.eval, bt_scan_spec t h, effIncl, Int.toNat_natCast,
+      runCb_walk c.limitCmp h5 (m + 1) f _ 0 [] (Nat.zero_le _), List.nil_append, Nat.sub_zero,
+      Bool.or_false, Bool.not_false, Bool.and_true, beforeStop_none, takeWhile_true]
+    simp
+
+theorem bt_iterwalk_zero_and_empty (c : Cfg) (t : Tree) (a : ScanArgs) (k : Int) (f : Item → Bool) :
+    iterWalk c t a k f 0 = .items [] := by simp [iterWalk]
+
+/-! ### non-vacuity, and witnesses that `Proved` is tight -/
+
+/-- the configuration found on today's tree -/
+def cfgToday : Cfg := ⟨⟨.asc, .pivot, .nil, true, false⟩, ⟨.asc, .pivot, .nil, false, false⟩,
+    ⟨.desc, .pivot, .nil, true, false⟩, ⟨.desc, .pivot, .nil, false, false⟩, .ge, 2⟩
+
+example : Proved cfgToday := by decide
+example : Proved { cfgToday with limitCmp := .eq, wrapperDegree := 3 } := by decide
+
+/-- a two-level tree of degree 2: keys 1 2 5 6 7 9 10 -/
+def sampleTree : Tree :=
+  ⟨2, some (.mk [⟨2, 2⟩, ⟨6, 6⟩] [.mk [⟨1, 1⟩] [], .mk [⟨5, 5⟩] [], .mk [⟨7, 7⟩, ⟨9, 9⟩, ⟨10, 10⟩] []]), 7⟩
+
+/-- … which is what the model's own insert builds from the empty tree -/
+example : let t := [1, 2, 5, 6, 7, 9, 10].foldl (fun t k => (t.replaceOrInsert ⟨k, k.toNat⟩).1) (Tree.new 2)
+    t.inorder = sampleTree.inorder ∧ t.root.map Node.items = sampleTree.root.map Node.items ∧ t.length = 7 := by
+  decide +kernel
+example : sampleTree.ok = true := by decide +kernel
+example : (sampleTree.scan cfgToday.ascGt (some 5) none (fun _ => true)).map (·.key) = [6, 7, 9, 10] := by decide +kernel
+example : (sampleTree.scan cfgToday.descLt (some 8) none (fun i => decide (i.key ≠ 5))).map (·.key) = [7, 6, 5] := by
+  decide +kernel
+example : wDescendLte cfgToday sampleTree 9 (fun i => i.key % 3 != 0) 2 = .items [⟨7, 7⟩, ⟨5, 5⟩] := by decide +kernel
+
+/-- if `AscendGreater` passed `includeStart = true`, the exclusive scan would return the pivot -/
+theorem witness_ascGt_inclusive :
+    (sampleTree.scan ⟨.asc, .pivot, .nil, true, false⟩ (some 5) none (fun _ => true)).map (·.key) = [5, 6, 7, 9, 10] := by
+  decide +kernel
+
+/-- if `DescendLess` passed `hit = true` … nothing changes descending (the pivot is still skipped); but an
+    ascending exclusive scan started with `hit = true` returns the pivot -/
+theorem witness_ascGt_hit :
+    (sampleTree.scan ⟨.asc, .pivot, .nil, false, true⟩ (some 5) none (fun _ => true)).map (·.key) = [5, 6, 7, 9, 10] := by
+  decide +kernel
+
+/-- `iterWalk` with `c > n` would return `n + 1` items -/
+theorem witness_limit_gt :
+    wAscendGte { cfgToday with limitCmp := .gt } sampleTree 0 (fun _ => true) 2 = .items [⟨1, 1⟩, ⟨2, 2⟩, ⟨5, 5⟩] := by
+  decide +kernel
+
+theorem not_proved_limit_gt : ¬ Proved { cfgToday with limitCmp := .gt } := by decide
+theorem not_proved_ascGt_inclusive : ¬ Proved { cfgToday with ascGt := ⟨.asc, .pivot, .nil, true, false⟩ } := by decide
 
 end Nv.C03
